@@ -51,19 +51,20 @@ type Result struct {
 }
 
 type runner struct {
-	sc       *Scenario
-	w        *World
-	m        *Model
-	clients  map[int]*Client
-	res      *Result
-	stepIdx  int
-	dis      map[int32]bool
-	lastOut  *Outcome
-	inappAt  map[int]int // per client: inapplicable broadcasts already reported
-	strict   bool
-	inBlock  bool
-	gridSeen map[string]int
-	desync   bool // the model can no longer follow the server (non-serializable block)
+	sc         *Scenario
+	w          *World
+	m          *Model
+	clients    map[int]*Client
+	res        *Result
+	stepIdx    int
+	dis        map[int32]bool
+	lastOut    *Outcome
+	inappAt    map[int]int // per client: inapplicable broadcasts already reported
+	strict     bool
+	inBlock    bool
+	gridSeen   map[string]int
+	desync     bool            // the model can no longer follow the server (non-serializable block)
+	doubleKeys map[string]bool // component keys that two requests of a block both added successfully
 }
 
 func (r *runner) violate(v Violation) {
@@ -89,7 +90,7 @@ func RunScenario(t *testing.T, sc *Scenario) *Result {
 	res := &Result{Stats: map[string]int{}, Triggers: map[string]int{}, States: map[string]bool{}, Blocks: map[string]bool{}, Streams: map[string][]*streamItem{}, Sent: map[int][]byte{}, InS0: map[int]bool{}, RIDs: map[int]uint32{}}
 	inBubble(t, res, func(t *testing.T) {
 		w := NewWorld(sc.World)
-		r := &runner{sc: sc, w: w, m: NewModel(sc.World.Modules), clients: map[int]*Client{}, res: res, dis: disabledTypes(sc.World.Flags), inappAt: map[int]int{}}
+		r := &runner{sc: sc, w: w, m: newModelFor(sc.World), clients: map[int]*Client{}, res: res, dis: disabledTypes(sc.World.Flags), inappAt: map[int]int{}}
 		r.run()
 		res.Digest = w.sim.Digest()
 		res.Stats = mergeStats(res.Stats, w.sim.Stats)
@@ -142,7 +143,7 @@ func runCustom(t *testing.T, sc *Scenario, body func(r *runner)) *Result {
 	res := &Result{Stats: map[string]int{}, Triggers: map[string]int{}, States: map[string]bool{}, Blocks: map[string]bool{}, Streams: map[string][]*streamItem{}, Sent: map[int][]byte{}, InS0: map[int]bool{}, RIDs: map[int]uint32{}}
 	inBubble(t, res, func(t *testing.T) {
 		w := NewWorld(sc.World)
-		r := &runner{sc: sc, w: w, m: NewModel(sc.World.Modules), clients: map[int]*Client{}, res: res, dis: disabledTypes(sc.World.Flags), inappAt: map[int]int{}}
+		r := &runner{sc: sc, w: w, m: newModelFor(sc.World), clients: map[int]*Client{}, res: res, dis: disabledTypes(sc.World.Flags), inappAt: map[int]int{}}
 		body(r)
 		r.stepIdx = 1 << 20
 		r.finish()
@@ -333,6 +334,10 @@ func (r *runner) runSeq(st *Step) {
 		return
 	}
 	r.res.Executed++
+	if st.Op == "join" && r.m.Tainted[st.Conn] {
+		r.taintedJoin(st, c)
+		return
+	}
 	switch st.Op {
 	case "close", "rst":
 		r.noteS0(st)
@@ -917,6 +922,45 @@ func (r *runner) serverSnapshotOpt(keepDangling bool) map[string]*MSession {
 // persistent is owned by a member.
 func (r *runner) checkInvariants() {
 	snap := r.serverSnapshotOpt(true)
+	// subscriptions belong to members (read through the store's own Notify)
+	type strayT struct {
+		sid      string
+		typ, pid uint32
+	}
+	var stray []strayT
+	r.w.sim.Inspect(func() {
+		var ids []string
+		for _, s := range snap {
+			ids = append(ids, s.ID)
+		}
+		sort.Strings(ids)
+		for _, id := range ids {
+			ss, ok := r.w.Sessions.GetByGlobalID(id)
+			if !ok {
+				continue
+			}
+			members := map[uint32]bool{}
+			for _, p := range ss.GetParticipants() {
+				members[p.ID] = true
+			}
+			for t := uint32(1); t <= 6; t++ {
+				ss.GetEntityComponents().Notify(t, func(pids []uint32) {
+					sort.Slice(pids, func(i, j int) bool { return pids[i] < pids[j] })
+					for _, pid := range pids {
+						if !members[pid] {
+							stray = append(stray, strayT{id, t, pid})
+						}
+					}
+				})
+			}
+		}
+	})
+	for _, x := range stray {
+		d := fmt.Sprintf("session %s: participant %d is still subscribed to component type %d although it is not a member", x.sid, x.pid, x.typ)
+		r.v("C06", "subscription-survived", "%s", d)
+		r.v("C09", "state-invariant", "%s", d)
+		r.v("C13", "notify-unsubscribed", "%s", d)
+	}
 	var uu []string
 	for u := range snap {
 		uu = append(uu, u)
@@ -1252,5 +1296,39 @@ func (r *runner) die(st *Step, c *Client) {
 	out.StateOnly = true
 	r.compare(st, c, out)
 	r.checkEnded(c, "protocol error "+st.Variant)
+	r.checkState(out)
+}
+
+func newModelFor(w WorldCfg) *Model {
+	m := NewModel(w.Modules)
+	m.Skew, m.SkewBase = w.Skew, w.SkewBase
+	return m
+}
+
+// taintedJoin: a join by a connection that earlier sent a pose or component update while in no
+// session. The join request makes the server handle that held-back update first: it is refused
+// and becomes a disconnect cause while the join is already queued, so the join may or may not
+// be carried out before the connection is ended. What must hold: the connection is ended through
+// the normal path, it is nobody's fellow member afterwards, and the server state equals the
+// model without it. Streams of this step are not compared (others may or may not have seen it
+// come and go).
+func (r *runner) taintedJoin(st *Step, c *Client) {
+	r.noteS0(st)
+	r.markAll()
+	p := r.m.Build(st, st.Conn, c.NextReqID())
+	if b, err := proto.Marshal(p.Req); err == nil {
+		r.res.Sent[r.stepIdx] = b
+	}
+	c.Send(p.Req)
+	r.quiesce()
+	r.res.Stats["probe.join_after_update_sent_outside_a_session"]++
+	if !c.Ended() {
+		r.v("C08", "handler-not-returned", "%s sent an update while in no session and then a join: the update must be refused and the connection ended, but it is still open", c.Label)
+		r.v("C04", "unjoined-executed", "%s sent an update while in no session and then a join: the connection is still open", c.Label)
+		return
+	}
+	out := r.m.Depart(st.Conn)
+	r.res.Triggers["server_ended"]++
+	r.checkEnded(c, "join after an update sent outside a session")
 	r.checkState(out)
 }
